@@ -195,28 +195,69 @@ theorem nw_op (op : VC) (rest : Str) : NW (op.display ++ rest) := by
   cases op <;> exact headFails_cons _ _ _ (by decide)
 
 theorem VersionA.ok_iff (v : VersionA) : v.ok = true ↔
-    isIdent v.body = true ∧ ∀ e, v.epoch = some e → isDigits e = true ∧ digitsVal e < 4294967296 := by
+    isIdent v.first = true ∧ (∀ q ∈ v.more, isIdent q = true)
+      ∧ ∀ e, v.epoch = some e → isDigits e = true ∧ digitsVal e < 4294967296 := by
   cases v with
-  | mk epoch body => cases epoch <;> simp [VersionA.ok]
+  | mk epoch body => cases epoch <;> simp [VersionA.ok, and_assoc]
+
+@[simp] theorem colonTail_nil : colonTail [] = [] := rfl
+@[simp] theorem colonTail_cons (q : Str) (qs : List Str) :
+    colonTail (q :: qs) = (.COLON, [':']) :: (.IDENT, q) :: colonTail qs := by simp [colonTail]
+
+/-- the pieces of `splitOn`, each with the separator put back in front -/
+theorem splitOn_flatten (sep : Char) (s : Str) :
+    ((Text.splitOn sep s).map fun q => sep :: q).flatten = sep :: s := by
+  induction s with
+  | nil => simp [Text.splitOn]
+  | cons c cs ih =>
+    by_cases hc : c = sep
+    · subst hc; simp [Text.splitOn, ih]
+    · simp only [Text.splitOn, hc, ↓reduceIte]
+      cases hs : Text.splitOn sep cs with
+      | nil => rw [hs] at ih; simp at ih
+      | cons l ls => rw [hs] at ih; simpa using ih
+
+/-- the version text is its pieces with a ':' before every piece but the first -/
+theorem VersionA.str_eq (v : VersionA) : v.str = v.first ++ (v.more.map fun q => ':' :: q).flatten := by
+  cases v with
+  | mk epoch body =>
+    cases epoch with
+    | none => simp [VersionA.str, VersionA.first, VersionA.more]
+    | some e => simp [VersionA.str, VersionA.first, VersionA.more, splitOn_flatten]
+
+/-- `:q1:q2…` followed by something that does not continue the last identifier -/
+theorem lex_colonTail (qs : List Str) (rest : Str) (hqs : ∀ q ∈ qs, isIdent q = true)
+    (hr : HeadFails isIdentChar rest) :
+    lex ((qs.map fun q => ':' :: q).flatten ++ rest) = colonTail qs ++ lex rest := by
+  induction qs with
+  | nil => simp
+  | cons q qs ih =>
+    have hq := hqs q (by simp)
+    have ih' := ih (fun x hx => hqs x (by simp [hx]))
+    simp only [colonTail_cons, List.map_cons, List.flatten_cons, List.append_assoc, List.cons_append,
+      List.nil_append]
+    rw [lex_punct ':' .COLON _ (by decide), lex_ident q _ hq (by
+      cases qs with
+      | nil => simpa using hr
+      | cons q' qs' => exact headFails_cons _ _ _ (by decide)), ih']
+
+theorem headFails_colonTail (p : Char → Bool) (hp : p ':' = false) (qs : List Str) (rest : Str)
+    (hr : HeadFails p rest) : HeadFails p ((qs.map fun q => ':' :: q).flatten ++ rest) := by
+  cases qs with
+  | nil => simpa using hr
+  | cons q qs => exact headFails_cons _ _ _ hp
 
 theorem lex_version (v : VersionA) (rest : Str) (hv : v.ok = true) (hr : NI rest) :
     lex (v.str ++ rest) = v.toks ++ lex rest := by
-  obtain ⟨hb, he⟩ := (VersionA.ok_iff v).1 hv
-  cases hep : v.epoch with
-  | none => simp [VersionA.str, VersionA.toks, hep, lex_ident _ _ hb hr]
-  | some e =>
-    have hie := isIdent_of_digits (he e hep).1
-    simp only [VersionA.str, VersionA.toks, hep, List.append_assoc, List.cons_append, List.nil_append]
-    rw [lex_ident e _ hie (headFails_cons _ _ _ (by decide)),
-      lex_punct ':' .COLON _ (by decide), lex_ident _ _ hb hr]
+  obtain ⟨hb, hm, _⟩ := (VersionA.ok_iff v).1 hv
+  rw [VersionA.str_eq, List.append_assoc,
+    lex_ident _ _ hb (headFails_colonTail _ (by decide) _ _ hr), lex_colonTail _ _ hm hr]
+  simp [VersionA.toks]
 
 theorem nw_version (v : VersionA) (rest : Str) (hv : v.ok = true) : NW (v.str ++ rest) := by
-  obtain ⟨hb, he⟩ := (VersionA.ok_iff v).1 hv
-  cases hep : v.epoch with
-  | none => simpa [VersionA.str, hep] using nw_ident _ rest hb
-  | some e =>
-    have hie := isIdent_of_digits (he e hep).1
-    simpa [VersionA.str, hep] using nw_ident e (':' :: (v.body ++ rest)) hie
+  obtain ⟨hb, _, _⟩ := (VersionA.ok_iff v).1 hv
+  rw [VersionA.str_eq, List.append_assoc]
+  exact nw_ident _ _ hb
 
 theorem VerPart.ok_iff (p : VerPart) : p.ok = true ↔
     gapOk p.pre = true ∧ gapOk p.g2 = true ∧ gapOk p.g3 = true ∧ gapOk p.g4 = true ∧ p.ver.ok = true := by
